@@ -18,6 +18,38 @@ func init() {
 				// the receiver is the operand itself
 				J("H_C05_alias", o, "w", 1, "stubs", 1), J("H_C05_alias", o, "w", 2, "px", 25, "stubs", 1),
 			}
+			// the numeric half on the real Sqrt (no stub): concrete operands from the hard-case family, symbolic mode
+			ks := []int{3, 7, 12, 99, 316, 3162277, 999999999, 3037000499}
+			ps := []int{1, 5, 16, 19, 20}
+			xes := []int{0, 1, -7}
+			if tier == "thorough" {
+				ks = []int{1, 2, 3, 5, 7, 10, 12, 31, 99, 101, 316, 317, 9999, 3162277, 999999999, 1000000001, 2147483647, 3037000499}
+				ps = []int{1, 2, 3, 5, 9, 15, 16, 17, 18, 19, 20, 37, 38, 39, 57}
+				xes = []int{0, 1, -1, 6, -7, 19, -38}
+			}
+			for _, k := range ks {
+				for _, p := range ps {
+					for i, xe := range xes {
+						for _, delta := range []int{0, 1, -1} {
+							if tier != "thorough" && (i+delta+p+k)%3 != 0 && !(delta == 0 && xe == 0) {
+								continue // quick: a third of the combinations, all perfect squares with exponent 0
+							}
+							if k == 1 && delta == -1 {
+								continue // x = 0
+							}
+							jobs = append(jobs, J("H_C05_root", o, "k", k, "p", p, "xe", xe, "delta", delta))
+						}
+					}
+				}
+			}
+			for _, c := range [][3]int{{1, 1, 0}, {2, 1, 0}, {12, 2, 1}, {999, 3, 0}, {4, 1, -3}, {123456789, 9, 0}, {94, 2, 5}} {
+				// exact midpoints (k + 1/2) at the precision of k: ties for the nearest modes
+				jobs = append(jobs, J("H_C05_root", o, "k", c[0], "p", c[1], "xe", c[2], "mid", 1))
+			}
+			for _, c := range [][2]int{{2, 5}, {2, 19}, {2, 40}, {3, 16}, {5, 17}, {10, 18}, {123456789, 30}, {2, 100}} {
+				// non-squares
+				jobs = append(jobs, J("H_C05_root", o, "k", c[0], "p", c[1], "sq", 0), J("H_C05_root", o, "k", c[0], "p", c[1], "sq", 0, "xe", -1))
+			}
 			if tier == "thorough" {
 				for _, p := range []int{1, 2, 18, 20, 37, 38, 39, 57} {
 					jobs = append(jobs, J("H_C05_sqrt", o, "fx", 1, "w", 2, "p", p, "stubs", 1), J("H_C05_sqrt", o, "fx", 1, "w", 3, "p", p, "stubs", 1))
@@ -26,15 +58,15 @@ func init() {
 			return jobs
 		},
 		Bounds: map[string]string{
-			"quick":    "Sqrt of +-0, +-Inf, negative finite values (ErrNaN, receiver valid); finite x of 1-2 words with every exponent (even, odd, negative, range ends), receiver precision {0, 3, 5, 19, 30} and dirty receivers: precision and rounding mode after the call equal those before it (x's precision if it was 0), operand unchanged, result non-negative and Inv. The Newton iteration is replaced by a frame stub (vStub_sqrtInverse: z = z*3 through the real Mul).",
-			"thorough": "as quick with 2-3 word operands and precisions {1,2,18,20,37,38,39,57}.",
+			"quick":    "(a) for ALL operand values: Sqrt of +-0, +-Inf, negative finite values (ErrNaN, receiver valid); finite x of 1-2 words with every exponent (even, odd, negative, range ends), receiver precision {0, 3, 5, 19, 30} and dirty receivers: precision and rounding mode after the call equal those before it (x's precision if it was 0), operand unchanged, result non-negative and Inv, same result when the receiver is the operand; in these jobs the Newton iteration and the exact-floor search are replaced by frame stubs (vStub_sqrtInverse: z = z*3 through the real Mul; vStub_sqrtTruncate: no-op). (b) the correctly rounded ROOT on the real Sqrt (float64 seed, Newton iteration, floor search, final rounding - nothing stubbed) for a family of CONCRETE operands and every rounding mode (symbolic): k^2, k^2+1, k^2-1 for k in {3,7,12,99,316,3162277,999999999,3037000499} times 10^{0,1,-7}, precisions {1,5,16,19,20} (a third of the combinations plus every perfect square with exponent 0), seven exact midpoints (k+1/2)^2 at the tie precision, non-squares 2,3,5,10,123456789 at precisions 5..100 with even and odd exponent: about 170 operands x 6 modes.",
+			"thorough": "(a) with 2-3 word operands and precisions {1,2,18,20,37,38,39,57}; (b) the full product of 18 roots k (1 .. 3037000499) x {k^2, k^2+1, k^2-1} x exponents {0,1,-1,6,-7,19,-38} x 15 precisions 1..57: about 5600 operands x 6 modes.",
 		},
 		Outside: []string{
-			"NOT DECIDED: correct rounding of the root. It depends on 1/math.Sqrt(float64) (symbolic IEEE division and square root: z3 4.8.12, z3 5.1.0 and cvc5 answer unknown/timeout at 120 s on the one-step lemmas, DESIGN 3) and on a Newton loop of growing multi-word precision; only the code of Sqrt around sqrtInverse is encoded.",
+			"the numeric half is decided for the listed concrete operands only: the iteration starts from math.Sqrt of a float64, which the executor interprets concretely (symbolic IEEE division/sqrt: z3 4.8.12, z3 5.1.0 and cvc5 answer unknown/timeout at 120 s on one-step lemmas, DESIGN 3), so the operand cannot be a solver variable; the solver's quantifier there is the rounding mode. Operands outside the family, mantissas above 19 digits in the root jobs, precisions above 100.",
 		},
-		Assumptions: []string{"sqrtInverse replaced by the stub vStub_sqrtInverse (same frame: overwrites z through the real Mul)", archNote},
-		LevelText:   "Bounded symbolic model checking of the decidable half of C05: special values, ErrNaN, attribute preservation (precision AND rounding mode), operand immutability and the exponent bookkeeping of Sqrt, for all values in the bound. The numeric half (correctly rounded root) is outside the reach of solver-based checking here and is NOT claimed.",
-		LevelNote:   "Partial: the value of the root is not verified. " + trusted,
+		Assumptions: []string{"jobs of part (a) replace sqrtInverse/sqrtTruncate by the stubs vStub_sqrtInverse/vStub_sqrtTruncate (same frame: z overwritten through the real Mul); part (b) runs the real code", "the oracle of part (b) is square-and-compare on integers (r^2, next^2, prev^2 and the midpoints against x after scaling to a common exponent): no root is computed by the checker", archNote},
+		LevelText:   "Bounded symbolic model checking. (a) For all operand values: special values, ErrNaN, attribute preservation (precision AND rounding mode), operand immutability, alias independence and the exponent bookkeeping of Sqrt. (b) Correct rounding of the root by executing the real Sqrt on concrete hard-case operands (perfect squares, their neighbours, exact midpoints, odd/even exponents) with the rounding mode symbolic; the result must be the exact root, or the floor/ceiling neighbour the mode selects, decided by integer square comparisons.",
+		LevelNote:   "Part (b) quantifies over modes, not operands: it is a family of concrete operands pushed through the symbolic executor, which is as far as solver-based checking reaches here. " + trusted,
 		Timeout:     map[string]time.Duration{"quick": 150 * time.Second, "thorough": 300 * time.Second},
 	})
 	Register(&PropDef{
@@ -58,17 +90,24 @@ func init() {
 				jobs = append(jobs, J("H_C06_divpat", o, "n", 2, "m", 3, "v0", pat[0], "v1", pat[1]), J("H_C06_divpat", o, "n", 2, "m", 2, "v0", pat[0], "v1", pat[1]))
 			}
 			jobs = append(jobs, J("H_C06_divpat", o, "n", 3, "m", 4, "v0", 4, "v1", 4, "v2", 2), J("H_C06_divpat", o, "n", 3, "m", 3, "v0", 0, "v1", 4, "v2", 3))
+			// aliased receivers of the long division: quotient / remainder receiver == divisor / dividend
+			// (with spare capacity, so that the operand's array really is reused)
+			for a := 1; a <= 4; a++ {
+				jobs = append(jobs, J("H_C06_divpat", o, "n", 2, "m", 3, "v0", 4, "v1", 2, "alias", a))
+			}
+			jobs = append(jobs, J("H_C06_divpat", o, "n", 3, "m", 4, "v0", 4, "v1", 4, "v2", 2, "alias", 1))
 			// results do not depend on the thresholds: same query under two assignments
 			jobs = append(jobs, J("H_C06_thresh", o, "m", 2, "n", 2))
 			if tier == "thorough" {
 				jobs = append(jobs, J("H_C06_mul", o, "m", 5, "n", 4), J("H_C06_mul", o, "m", 6, "n", 6), J("H_C06_mul", o, "m", 3, "n", 2, "kt", 2), J("H_C06_mul", o, "m", 3, "n", 3, "kt", 2),
 					J("H_C06_sqr", o, "m", 4), J("H_C06_sqr", o, "m", 3, "bst", 2), J("H_C06_div", o, "m", 4, "n", 1), J("H_C06_div", o, "m", 2, "n", 3),
-					J("H_C06_divpat", o, "n", 2, "m", 4, "v0", 4, "v1", 2), J("H_C06_divpat", o, "n", 2, "m", 4, "v0", 5, "v1", 3), J("H_C06_divpat", o, "n", 3, "m", 5, "v0", 4, "v1", 4, "v2", 2))
+					J("H_C06_divpat", o, "n", 2, "m", 4, "v0", 4, "v1", 2), J("H_C06_divpat", o, "n", 2, "m", 4, "v0", 5, "v1", 3), J("H_C06_divpat", o, "n", 3, "m", 5, "v0", 4, "v1", 4, "v2", 2),
+					J("H_C06_divpat", o, "n", 2, "m", 4, "v0", 5, "v1", 3, "alias", 1), J("H_C06_divpat", o, "n", 2, "m", 4, "v0", 5, "v1", 3, "alias", 3))
 			}
 			return jobs
 		},
 		Bounds: map[string]string{
-			"quick":    "dec.mul: schoolbook 1x1..4x4 words, Karatsuba (threshold variable lowered to 2) at 2x2; dec.sqr: 1-3 words via mul10WW/decBasicMul, decBasicSqr (threshold lowered) at 2 words; dec.div: dividend shorter than divisor, single-word divisors with 1-3 word dividends (divW/div10VWW), and 2- and 3-word divisors taken from a list of extremal patterns (top word D/2, D/2+1, D-1, 7e18; lower words D-1, 0, 1, ...) with ARBITRARY dividends of up to one more word than the divisor + 1 (divLarge scaling, divBasic quotient-digit estimation, correction loop, add-back, un-scaling); threshold independence at 2x2. All word values (< 10^19), including whole-word runs of 0s and 9s.",
+			"quick":    "dec.mul: schoolbook 1x1..4x4 words, Karatsuba (threshold variable lowered to 2) at 2x2; dec.sqr: 1-3 words via mul10WW/decBasicMul, decBasicSqr (threshold lowered) at 2 words; dec.div: dividend shorter than divisor, single-word divisors with 1-3 word dividends (divW/div10VWW), and 2- and 3-word divisors taken from a list of extremal patterns (top word D/2, D/2+1, D-1, 7e18; lower words D-1, 0, 1, ...) with ARBITRARY dividends of up to one more word than the divisor + 1 (divLarge scaling, divBasic quotient-digit estimation, correction loop, add-back, un-scaling), also with the quotient or remainder receiver aliased to the divisor or the dividend; threshold independence at 2x2. All word values (< 10^19), including whole-word runs of 0s and 9s.",
 			"thorough": "dec.mul up to 6x6 schoolbook and 3x3 Karatsuba incl. the unbalanced loop; decBasicSqr at 3 words; divisors of 1 word with 4-word dividends.",
 		},
 		Outside: []string{
